@@ -14,6 +14,7 @@ PROG = 77           # key id of the program under test: key(id) = [id; 32] for i
 SYS = 0             # System::ID = [0; 32]
 RENT, INST = 1000, 1001
 ARGS_MARK = -777
+PHASE_MARK = -780
 
 E_ADVANCE = 9004
 E_SIGNER = 1001
@@ -120,6 +121,81 @@ FAMILY = [
     [vec(box(LS)), opt(box(NA))],
     [LS, opt(NC), rest(opt(NA))],
 ]
+
+NBASE = len(FAMILY)
+
+# ---- argument layouts --------------------------------------------------------------------------------------------
+# Instructions whose argument struct hands SINGLE FIELDS to the four phases of the entry path (InstructionArgs derive,
+# `#[ix_args(..)]` on fields): per field the tuple of its marks ("decode" | "validate" | "run" | "&run" | "cleanup"),
+# () = plain instruction data that no phase receives.  Every field is a u8 (a phase handed ANOTHER field of the struct
+# still type-checks, which is what makes a wrong field index silent); `tuple` = a tuple struct (fields addressed by
+# position: `r.1`) or its named-field control (`r.x1`); `self` = marks on the struct itself (the whole struct).
+# The decode-marked fields are, in declaration order, the lengths of the shape's Vec fields.
+PHASES = ("decode", "validate", "run", "cleanup")
+AS1 = [LS, vec(L0), LM]
+AS2 = [vec(LS), L0, vec(LM)]
+_D, _V, _R, _RR, _C, _N = ("decode",), ("validate",), ("run",), ("&run",), ("cleanup",), ()
+
+
+def _both(shape, fields, self_marks=()):
+    return [{"shape": shape, "tuple": t, "fields": list(fields), "self": tuple(self_marks)} for t in (True, False)]
+
+
+LAYOUTS = (
+    # (a) an un-annotated field first, then decode and run:  Notify(u8, #[ix_args(decode)] u8, #[ix_args(run)] u8)
+    _both(AS1, [_N, _D, _R])
+    # (b) annotated fields in non-declaration phase order (fully annotated, then behind an un-annotated field)
+    + _both(AS1, [_R, _C, _D, _V])
+    + _both(AS1, [_N, _C, _RR, _V, _D])
+    # (c) an annotated field between two un-annotated ones, then one more annotated field
+    + _both(AS1, [_N, _D, _N, _RR])
+    + _both(AS1, [_N, _N, _V, _D, _N, _R, _N])
+    # several fields per phase (the phase receives a tuple, declaration order), one field marked for two phases
+    + _both(AS2, [_D, _N, ("decode", "run"), _N, _C, _V, _R])
+    + _both(AS1, [_N, _V, _D, _C, _N, _V, _C])
+    # the whole struct to the handler, single fields to the other phases
+    + _both(AS1, [_N, _D, _N, _V], ("&run",))
+)
+FAMILY = FAMILY + [lay["shape"] for lay in LAYOUTS]
+
+
+def layout_of(sidx):
+    return LAYOUTS[sidx - NBASE] if sidx >= NBASE else None
+
+
+def phase_of(mark):
+    return PHASES.index(mark.lstrip("&"))
+
+
+def is_decode_field(marks):
+    return any(phase_of(m) == 0 for m in marks)
+
+
+def layout_values(lay, lens, extra):
+    """all field values in declaration order: the decode-marked fields are the Vec lengths, the others come from the case"""
+    lens, extra = list(lens), list(extra)
+    return [lens.pop(0) if is_decode_field(m) else extra.pop(0) for m in lay["fields"]]
+
+
+def expected_phases(lay, vals):
+    """(phase, value) in the order the entry path runs the phases; within a phase the struct itself first, then the marked
+    fields in declaration order (= the components of the phase's argument tuple)"""
+    out = []
+    for ph in range(4):
+        if any(phase_of(m) == ph for m in lay["self"]):
+            out += [(ph, v) for v in vals]
+        for marks, v in zip(lay["fields"], vals):
+            out += [(ph, v) for m in marks if phase_of(m) == ph]
+    return out
+
+
+def show_layout(lay):
+    fs = []
+    for i, m in enumerate(lay["fields"]):
+        a = "#[ix_args(%s)] " % ", ".join(m) if m else ""
+        fs.append(a + ("u8" if lay["tuple"] else "x%d: u8" % i))
+    head = "#[ix_args(%s)] " % ", ".join(lay["self"]) if lay["self"] else ""
+    return head + ("Ix(%s)" if lay["tuple"] else "Ix { %s }") % ", ".join(fs)
 
 
 def top(i):
@@ -341,6 +417,23 @@ def gen_extra(rng, kind):
     return [rng.range(0, 255)] + rng.bytes(4) + [rng.below(2)]
 
 
+def gen_layout_extra(rng, lay, lens):
+    """values of the fields that are not decode-marked, pairwise different and different from the Vec lengths: a phase
+    that receives another field of the struct receives another VALUE"""
+    used = set(lens)
+    out = []
+    for m in lay["fields"]:
+        if is_decode_field(m):
+            continue
+        while True:
+            v = rng.range(0, 6) if rng.chance(1, 2) else rng.range(0, 255)
+            if v not in used:
+                break
+        used.add(v)
+        out.append(v)
+    return out
+
+
 def borsh_extra(kind, e):
     if kind == 0:
         return []
@@ -537,6 +630,10 @@ def parse_obs(s, obs):
         o["data"] = r.take(n)
         n = r.next()
         o["echo"] = None if n < 0 else r.take(n)
+    if r.i < len(obs) and obs[r.i] == PHASE_MARK:
+        r.next()
+        n = r.next()
+        o["phases"] = [tuple(r.take(2)) for _ in range(n)]   # (phase, value) in the order the entry path ran them
     if r.i < len(obs) and obs[r.i] == -778:
         r.next()
         o["over_privileged"] = r.next()      # 1 same CPI view, 0 different, -1 rejected, 2 not run
@@ -574,10 +671,21 @@ def predicate(c, obs):
     except IndexError:
         return "truncated observation"
     # arguments: what the client serialised is discriminant ++ borsh(args), and the program decodes the same args
-    want_data = [d["sidx"]] + list(lens) + borsh_extra(kind, d["extra"])
+    lay = layout_of(d["sidx"])
+    if lay is None:
+        want_data = [d["sidx"]] + list(lens) + borsh_extra(kind, d["extra"])
+        want_echo = borsh_extra(kind, d["extra"])
+    else:
+        vals = layout_values(lay, lens, d["extra"])
+        want_data = [d["sidx"]] + vals
+        want_echo = [x for ph, x in expected_phases(lay, vals) if ph == 2]
     if o.get("data") != want_data:
         return "client instruction data %s, expected discriminant ++ borsh(args) = %s" % (o.get("data"), want_data)
-    if o["reached"] and o.get("echo") != borsh_extra(kind, d["extra"]):
+    if lay is not None:
+        bad = _judge_phases(lay, vals, o)
+        if bad:
+            return bad
+    if o["reached"] and o.get("echo") != want_echo:
         return "the program decoded different arguments than the client encoded (%s)" % (o.get("echo"),)
     if not (wf(s, v, lens, 0, True) and keys_valid(s, v)):
         return None                      # documented placeholder ambiguity / deliberately invalid addresses
@@ -631,6 +739,31 @@ def predicate(c, obs):
     return None
 
 
+def _judge_phases(lay, vals, o):
+    """each phase of the entry path receives exactly the field(s) marked for it (every phase records the argument it is
+    handed: the decode expressions of the Vec fields, extra_validation, the handler, extra_cleanup)"""
+    exp = expected_phases(lay, vals)
+    got = o.get("phases")
+    if got is None:
+        return "the harness did not record the arguments the phases received"
+    complete = o["dispatch"][0] == 0
+    for i, g in enumerate(got):
+        if i >= len(exp) or g != exp[i]:
+            ph = PHASES[g[0]] if 0 <= g[0] < 4 else "?"
+            want = [x for p, x in exp if p == g[0]]
+            return ("the %s phase received %s but the field(s) marked #[ix_args(%s)] of %s hold %s: instruction fields %s, "
+                    "phases received %s, marked %s"
+                    % (ph, g[1], ph, show_layout(lay), want, vals, _ph(got), _ph(exp)))
+    if complete and len(got) != len(exp):
+        return ("the entry path succeeded but not every phase received its marked field: fields %s of %s, phases received %s, "
+                "marked %s" % (vals, show_layout(lay), _ph(got), _ph(exp)))
+    return None
+
+
+def _ph(log):
+    return "[%s]" % ", ".join("%s=%s" % (PHASES[p] if 0 <= p < 4 else p, x) for p, x in log)
+
+
 def _strip_flags(s, t):
     """tree with the flag bits removed (keys, presence, lengths)"""
     r = _Rd(t)
@@ -663,8 +796,8 @@ RULE = ("%d account-set shapes (plain / Signer / Mut / both orders / MaybeSigner
         "Sysvar, Option, Vec with decode length, arrays 0..63, Box, Rest, nested structs, two levels of nesting) each with its "
         "own derived instruction in one InstructionSet; per shape well-formed client values (all present/absent choices, "
         "lengths 0..3, 64/65 for the CPI array bound) and 'wild' values (program-id keys, wrong lengths, overridden "
-        "Program/Sysvar addresses) x six borsh argument types; every instruction that reaches its handler is run again with signer + writable on every account, and again with accounts in another state (no lamports, foreign owner, data): the CPI view and the decoded tree must not change. non-trivial = a well-formed value with valid addresses "
-        "(all three views are judged)" % len(FAMILY))
+        "Program/Sysvar addresses) x six borsh argument types (named-field argument structs, one decode and one run field); %d further instructions over two Vec-carrying shapes whose argument struct routes SINGLE u8 FIELDS to the four phases (#[ix_args(decode / validate / run / &run / cleanup)]): tuple structs and their named-field controls, with an un-annotated field first, annotated fields in non-declaration phase order, an annotated field between two un-annotated ones, several fields per phase, one field for two phases, the whole struct to the handler; field values pairwise different; every phase records the argument it is handed (decode expression of the Vec fields, extra_validation, the handler, extra_cleanup) and must receive exactly the field(s) marked for it, in declaration order (judged by the predicate on the implementation; the Coq model takes the decode argument as given and does not speak about argument splitting); every instruction that reaches its handler is run again with signer + writable on every account, and again with accounts in another state (no lamports, foreign owner, data): the CPI view and the decoded tree must not change. non-trivial = a well-formed value with valid addresses "
+        "(all three views are judged)" % (NBASE, len(LAYOUTS)))
 TRUSTED = [
     "Coq 8.16.1 kernel", "extraction (ExtrOcamlBasic only) + runner/driver.ml",
     "harness/src/bin/vh_c14.rs generated from lib/props/c14.py by tools/gen_c14_harness.py (fixed family of derived "
@@ -680,13 +813,21 @@ ASSUMPTIONS = [
     "the model mirrors the templates, rustc's macro expansion is not modelled",
     "instruction arguments (borsh) are judged on the implementation only (client bytes vs an independent encoder, and the "
     "arguments the program's process() receives); they are not part of the Coq model",
+    "the routing of argument fields to phases (InstructionArgs::split_to_args) is judged on the implementation only: the model's "
+    "decode takes the lengths the client put in the decode-marked fields; an entry path that decodes with another field shows "
+    "up as a direct property failure (phase log) and as a disagreement with the model; argument fields of the layouts are "
+    "u8, phases are observed through hooks written in the account set's own attributes (decode arg expressions, "
+    "extra_validation, extra_cleanup) and in process()",
     "sets whose AccountLen is 64..99 or above 100 have no CPI (HandleCpiArray is not implemented: compile error); a "
     "dynamic CPI with more than 64 accounts panics on an indexed write (modelled as Panic)",
 ]
 
 
-def _lens_for(rng, s, hi=3):
-    return [rng.range(0, hi) for _ in range(nvec(s))]
+def _lens_for(rng, s, hi=3, distinct=False):
+    while True:
+        lens = [rng.range(0, hi) for _ in range(nvec(s))]
+        if not distinct or len(set(lens)) == len(lens):
+            return lens
 
 
 def gen_cases(rng, tier):
@@ -695,7 +836,8 @@ def gen_cases(rng, tier):
 
     def add(sidx, lens, val):
         nonlocal n
-        ex = gen_extra(rng, sidx % 6)
+        lay = layout_of(sidx)
+        ex = gen_extra(rng, sidx % 6) if lay is None else gen_layout_extra(rng, lay, lens)
         cases.append(("g%d" % n, make_case(sidx, lens, val, ex)))
         n += 1
 
@@ -704,10 +846,10 @@ def gen_cases(rng, tier):
         s = top(sidx)
         big = declared_len(s) >= 60 and nvec(s) == 0
         for k in range(2 if big else per_wf):
-            lens = _lens_for(rng, s)
+            lens = _lens_for(rng, s, distinct=sidx >= NBASE)
             add(sidx, lens, gen_value(rng, s, lens, [0], "wf"))
         for k in range(1 if big else per_wild):
-            lens = _lens_for(rng, s)
+            lens = _lens_for(rng, s, distinct=sidx >= NBASE)
             add(sidx, lens, gen_value(rng, s, lens, [0], "wild"))
     # the bound of the dynamic CPI arrays
     for ln in (63, 64, 65):
@@ -718,6 +860,17 @@ def gen_cases(rng, tier):
 
 def describe(c):
     d = decode_case(c)
+    lay = layout_of(d["sidx"])
+    out = _describe(d)
+    if lay is not None:
+        vals = layout_values(lay, d["lens"], d["extra"])
+        out["argument_struct"] = show_layout(lay)
+        out["argument_fields"] = vals
+        out["marked_for_phases"] = _ph(expected_phases(lay, vals))
+    return out
+
+
+def _describe(d):
     return {"shape_index": d["sidx"], "shape": show(d["shape"]), "vec_lengths": d["lens"], "client_value": _pv(d["val"]),
             "extra_args": d["extra"], "well_formed": wf(d["shape"], d["val"], d["lens"], 0, True),
             "addresses_valid": keys_valid(d["shape"], d["val"])}
@@ -747,6 +900,9 @@ def distribution(cases, impl):
         d = decode_case(c)
         w = wf(d["shape"], d["val"], d["lens"], 0, True) and keys_valid(d["shape"], d["val"])
         a["well-formed" if w else "ambiguous-or-invalid"] += 1
+        lay = layout_of(d["sidx"])
+        if lay is not None:
+            a["field-routed arguments (%s struct)" % ("tuple" if lay["tuple"] else "named")] += 1
         try:
             o = parse_obs(d["shape"], impl.get(cid) or [])
             b["decode %s" % ("ok" if o["decode"][0] == 0 else o["decode"][1])] += 1
